@@ -19,7 +19,7 @@ from ..common import Finding, Report
 
 NEEDS_LOOP = ("buffer", "delay", "rate_limit", "timed_window", "timed_window_unique", "partition", "latest", "map_async",
               "dask_scatter", "dask_map")
-PLAIN = ("map", "filter", "sliding_window", "unique")
+PLAIN = ("map", "sink", "filter", "sliding_window", "unique", "sink_to_list")
 JOINS = ("union", "zip", "combine_latest", "zip_latest")
 
 
@@ -57,6 +57,7 @@ class Seams:
         self.other = FakeLoop("other")
         self.created = []
         self.threads = []
+        self.dask = None
 
         class FakeIOLoop:
             def __new__(cls, make_current=False):
@@ -93,6 +94,12 @@ class Seams:
         from streamz.sinks import _global_sinks
         _global_sinks.clear()
         return False
+
+    def enable_dask(self):
+        """a default Dask client exists: pipelines that are not asynchronous use its loop instead of the shared one"""
+        self.dask = FakeLoop("dask")
+        client = type("FakeClient", (), {"loop": self.dask})()
+        self.sc._dask_default_client = lambda: client
 
     def loop_arg(self, name):
         return {None: None, "current": self.current, "other": self.other}[name]
@@ -144,6 +151,8 @@ def ref_add(comps, needs_loop, argA, argL, bg):
     if c.loop is None and c.mode is not None:
         if c.mode:
             c.loop = "current"
+        elif bg.get("dask"):
+            c.loop = "dask"          # the default client's loop: no thread of our own
         else:
             c.loop = "background"
             if not bg["started"]:
@@ -234,6 +243,11 @@ def make_node(kind, ups, seams, A, L):
     if kind == "dask_map":
         import streamz.dask as sd
         return sd.map(sd.scatter(u), lambda x: x)     # every DaskStream node needs a loop, not only scatter
+    if kind == "sink":
+        return u.sink(lambda x: None, **kw)
+    if kind == "sink_to_list":
+        u.sink_to_list()
+        return list(u.downstreams)[-1]
     if kind == "union":
         return sc.union(*ups, **kw)
     if kind == "zip":
@@ -250,7 +264,7 @@ def _with_kw(cls, args, kw):
     return cls(*args)
 
 
-ACCEPTS_KW = ("dask_scatter", "sliding_window", "unique", "buffer", "delay", "rate_limit", "timed_window", "timed_window_unique",
+ACCEPTS_KW = ("sink", "dask_scatter", "sliding_window", "unique", "buffer", "delay", "rate_limit", "timed_window", "timed_window_unique",
               "partition", "latest", "union", "zip", "combine_latest", "zip_latest")
 
 
@@ -262,6 +276,8 @@ def observe(node, seams):
         name = "current"
     elif lp is seams.other:
         name = "other"
+    elif lp is seams.dask:
+        name = "dask"
     elif lp in seams.created:
         name = "background"
     else:
@@ -279,6 +295,10 @@ def run_config(cfg):
     first, A, L, steps = cfg
     with Seams() as seams:
         bg = dict(started=False, threads=0)
+        if steps and steps[0][0] == "dask":
+            seams.enable_dask()
+            bg["dask"] = True
+            steps = steps[1:]
         # ---- reference ----
         try:
             comp = ref_add([], first != "Stream", A, L, bg)
@@ -421,6 +441,12 @@ def compare(nodes, comp, seams, bg, cfg, site):
     for o in obs:
         if o[0] is not None and comp.loop is not None and o[0] != comp.loop:
             return ("component-split", site, "", dict(cfg=cfg, observed=obs))
+    # callbacks scheduled while building (forwarding coroutines of buffer, delay, timed windows, latest, ...) belong on
+    # the component's loop and on no other
+    for name, lp in [("current", seams.current), ("other", seams.other), ("dask", seams.dask)] + [("background", x) for x in seams.created]:
+        if lp is not None and lp.callbacks and comp.loop is not None and name != comp.loop:
+            return ("callback-on-foreign-loop", site, "asynchronous-true" if comp.mode else "",
+                    dict(cfg=cfg, scheduled_on=name, component_loop=comp.loop))
     if len(seams.threads) != bg["threads"]:
         return ("thread-started", site, "asynchronous-true" if comp.mode else "", dict(cfg=cfg, threads=len(seams.threads), want=bg["threads"]))
     if len(seams.created) > 1:
@@ -431,7 +457,7 @@ def compare(nodes, comp, seams, bg, cfg, site):
 def configs(thorough):
     AS = (None, True, False)
     LS = (None, "current", "other")
-    kinds = PLAIN[:1] + NEEDS_LOOP if not thorough else PLAIN + NEEDS_LOOP
+    kinds = PLAIN[:2] + NEEDS_LOOP if not thorough else PLAIN + NEEDS_LOOP
     args = [(None, None), (True, None), (False, None), (None, "current"), (None, "other")]
     if thorough:
         args += [(True, "current"), (False, "other")]
@@ -454,6 +480,12 @@ def configs(thorough):
                             for k2 in ("buffer", "map", "timed_window"):
                                 yield (first, A, L, (("sibling",), ("node", k, a, l), ("extend-sibling", k2)))
                                 yield (first, A, L, (("sibling",), ("node", "map", None, None), ("node", k, a, l), ("extend-sibling", k2)))
+                if first in ("Stream", "from_periodic", "from_iterable"):
+                    # a default Dask client exists in the process
+                    yield (first, A, L, (("dask",),))
+                    for k in kinds:
+                        for a, l in args:
+                            yield (first, A, L, (("dask",), ("node", k, a, l)))
                 if first in ("Stream", "from_periodic"):
                     for j in JOINS:
                         for f2 in ("Stream", "from_iterable"):
@@ -499,6 +531,20 @@ def check(ctx):
                              "(plain / loop-requiring, explicit arguments none / agreeing / conflicting) x joins of two pipelines; every node construction is a transition; "
                              "distinct = distinct (first, asynchronous, loop, node kinds) shapes" % (len(FIRSTS) - 1),
                         samples=[_js(cfgs[7]), _js(cfgs[len(cfgs) // 2]), _js(cfgs[-1])], configurations=len(cfgs))
+    # run-time half: the batched Kafka source creates checkpoint counters while it runs; on the virtual loop, with the
+    # process-wide background loop replaced by a reporting stand-in, every schedule of a short scenario
+    from .. import spar
+    kjobs = [((consumer, 2, 1, None, False, "earliest", (), (0,), (0, 0), 2.0, "sentinel"), 0) for consumer in ("sync", "direct")]
+    kres = spar.run_scenarios(ctx, "vf.props.c09", kjobs)
+    krep = spar.report_from(ctx, "vf.props.c09", kres, bounds=[0], rule="")
+    for f in krep.findings:
+        if f.clause in ("callback-on-foreign-loop", "background-error", "unexpected-behaviour", spar.SHARED):
+            rep.add(f)
+    rep.coverage["evaluations"] += krep.coverage["evaluations"]
+    rep.coverage["traces_validated_against_impl"] += krep.coverage["evaluations"]
+    rep.coverage["runtime_half"] = dict(scenarios=len(kjobs), executions=krep.coverage["evaluations"],
+                                        rule="from_kafka_batched (fake broker) on the virtual loop, every placement of produce / tick / crash events; "
+                                             "any callback handed to the shared background loop is reported")
     rep.assumptions = ["event loops are inert stand-ins (streamz.core.IOLoop seam): only binding and thread creation are observed, callbacks are not run",
                        "mode compared by truthiness (a child of an asynchronous=False node is created with None, which emit treats identically)",
                        "joining two pipelines that already conflict has no stated expectation and is not generated"]
@@ -516,6 +562,9 @@ def _tup(x):
 
 
 def replay(ctx, rep):
+    if str(rep.get("engine", "")).startswith("sched"):
+        from . import c09
+        return c09.replay(ctx, rep)
     c = rep["config"]
     cfg = (c[0], c[1], c[2], _tup(c[3]))
     v = run_config(cfg)
